@@ -118,8 +118,12 @@ def r2_cancellation(chk: Check):
     bad = [src(t) for t, v, s in attr_stores(f.node) if dotted(t.value) != "self"]
     chk.require(not bad, chk.fkey(f, "writes only self"), f"dependencychanged writes {bad}: cancelling a job must not touch any other job (siblings keep running)", chk.loc(f.module, f.node))
     nested = {ff.node.name for ff in tree.funcs.values() if ff.parent is f}
-    for ff in tree.funcs.values():
-        if ff.parent is f:
+    # module-level helpers called by plain name count as nested ones: they must be as pure
+    called = {c.func.id for c in fn_calls(f.node) if isinstance(c.func, ast.Name)}
+    modlevel = [ff for ff in tree.funcs.values() if ff.parent is None and ff.cls is None and ff.module is f.module and ff.node.name in called]
+    nested |= {ff.node.name for ff in modlevel}
+    for ff in list(tree.funcs.values()):
+        if ff.parent is f or ff in modlevel:
             inner = [src(c) for c in fn_calls(ff.node) if not (isinstance(c.func, ast.Name) and c.func.id in ("int", "bool", "len", "isinstance"))] + [src(t) for t, v, s_ in attr_stores(ff.node)]
             chk.require(not inner, chk.fkey(f, f"nested helper {ff.node.name} is pure"), f"nested helper `{ff.node.name}` of dependencychanged has effects {inner}", chk.loc(f.module, ff.node))
     calls = [src(c) for c in fn_calls(f.node) if not src(c).startswith(("logger.", "self._readyEvent.set", "self.state.")) and not (isinstance(c.func, ast.Name) and c.func.id in nested)]
